@@ -1,5 +1,7 @@
-(* FormulaSheet — C14, shared and array formulas of xls: the FORMULA side of the sheet loop of
-   Xls::parse_workbook.  Definitions only (proofs: FormulaSheet_proofs.v).
+(* FormulaSheet — C14, shared and array formulas.  First part, xls: the FORMULA side of the sheet loop of
+   Xls::parse_workbook (proofs: FormulaSheet_proofs.v).  Second part, xlsb: XlsbCellsReader::next_formula
+   as driven by Xlsb::worksheet_formula (section XlsbSheet at the end; proofs: FormulaSheetB_proofs.v).
+   Definitions only.
 
    Modelled Rust code (src/xls.rs, commit "fix: xls cells of shared and array formulas were reported
    with an empty formula"), from the framed records of one sheet substream on (the framing — RecordIter,
@@ -422,17 +424,16 @@ Fixpoint spec_formulas_b (g : bgroups) (l : list bitem) : list (pos * list N) :=
   end.
 
 (* ---------- the domain ---------- *)
-Definition U32 : N := 4294967296.
 Definition wf_bhead (h : bhead) : bool :=
   match h with
   | HNum mid => (length mid =? 14)%nat
   | HBool mid | HErr mid => (length mid =? 7)%nat
   | HStr sty units grbit =>
-      (length sty =? 4)%nat && (length grbit =? 2)%nat && (N.of_nat (length units) <? U32) &&
+      (length sty =? 4)%nat && (length grbit =? 2)%nat && (N.of_nat (length units) <? 4294967296) &&
       forallb (fun u => u <? 65536) units
   end.
-Definition wf_bpos (p : pos) : bool := (fst p <? U32) && (snd p <? U32).
-Definition small_b (e : expr) : bool := N.of_nat (length (encode_xlsb e)) <? U32.
+Definition wf_bpos (p : pos) : bool := (fst p <? 4294967296) && (snd p <? 4294967296).
+Definition small_b (e : expr) : bool := N.of_nat (length (encode_xlsb e)) <? 4294967296.
 Definition first_of_b (it : bitem) : list pos :=
   match it with BShared p _ _ _ _ | BArray p _ _ _ _ _ => [p] | _ => [] end.
 
